@@ -324,6 +324,20 @@ def check_main(
     if ok:
         aud = audit(prop)
     proof_problems = ([build_problem] if build_problem else []) + aud["problems"]
+    recheck = None
+    if ok and tier == "thorough" and not args.replay:
+        # thorough tier: the toolchain's independent re-checker replays the compiled declarations of
+        # the property's theorem files (and everything they import) in a fresh kernel
+        mods = [f"AnyioModel.Props.{f.stem}" for f in prop_files(prop)]
+        try:
+            r = subprocess.run(["lake", "env", "leanchecker", *mods], cwd=LEAN, capture_output=True,
+                               text=True, timeout=1500)
+            recheck = {"cmd": "lake env leanchecker " + " ".join(mods), "exit": r.returncode}
+            if r.returncode != 0:
+                proof_problems.append("leanchecker rejected the compiled theorems:\n"
+                                      + (r.stdout + r.stderr)[-2000:])
+        except (subprocess.TimeoutExpired, FileNotFoundError) as e:
+            recheck = {"cmd": "lake env leanchecker", "exit": None, "note": f"not run: {e!r}"}
 
     # 3/4. correspondence + oracle on the real code
     if args.replay:
@@ -408,6 +422,8 @@ def check_main(
         "stats": res.stats,
         "explanation": technique_note,
     }
+    if recheck is not None:
+        cov["stats"] = dict(cov["stats"], leanchecker=recheck)
     ev = {
         "property_id": prop,
         "tier": tier,
